@@ -243,6 +243,7 @@ def _run(ctx, quick, rng, base):
             if kind == 'stdin_stdout' and i % 4 == 1:
                 open(os.path.join(sd, 'noread'), 'w').close()
             path = os.path.join(bind, name) if '/' not in name else name
+            os.makedirs(os.path.dirname(path), exist_ok=True)
             with open(path, 'w') as f:
                 f.write(script(kind, sd))
             os.chmod(path, 0o755)
@@ -262,7 +263,7 @@ def _run(ctx, quick, rng, base):
                           method=method, installed=inst_names, kinds=dict(installed), outs=outs, A=A, dir=d, status=status))
 
     def fake_path(i_hint, name='fakesolver'):
-        return os.path.join(base, 'case%d' % len(cases), 'bin', name)
+        return os.path.join(base, 'case%d' % len(cases), 'opt' if len(cases) % 5 else 'bin', name)     # mostly OUTSIDE the PATH of the case: an explicit path must be enough
 
     styles = [dict(), dict(split=True), dict(split=True, spaces=True), dict(crlf=True, split=True), dict(status_last=True, split=True),
               dict(terminator='own-line', split=True), dict(terminator='none'), dict(shuffled=True, split=True), dict(no_final_newline=True),
